@@ -813,6 +813,346 @@ def _positional_arguments(trees):
         ast.fix_missing_locations(t)
 
 
+def _fold_constants(node):
+    """partial evaluation after a parameter has been replaced by a constant: comparisons between constants, `not` of a constant, boolean
+    operators with constant operands, conditional expressions and `if` statements with a constant test"""
+    class F(ast.NodeTransformer):
+        def visit_Compare(self, n):
+            self.generic_visit(n)
+            if len(n.ops) == 1 and isinstance(n.left, ast.Constant) and isinstance(n.comparators[0], ast.Constant):
+                a, b, op = n.left.value, n.comparators[0].value, n.ops[0]
+                try:
+                    if isinstance(op, ast.Is):
+                        r = a is b if (a is None or b is None or isinstance(a, bool) or isinstance(b, bool)) else None
+                    elif isinstance(op, ast.IsNot):
+                        r = a is not b if (a is None or b is None or isinstance(a, bool) or isinstance(b, bool)) else None
+                    elif isinstance(op, ast.Eq):
+                        r = a == b
+                    elif isinstance(op, ast.NotEq):
+                        r = a != b
+                    else:
+                        r = None
+                except Exception:      # noqa: BLE001
+                    r = None
+                if r is not None:
+                    return ast.copy_location(ast.Constant(bool(r)), n)
+            return n
+
+        def visit_UnaryOp(self, n):
+            self.generic_visit(n)
+            if isinstance(n.op, ast.Not) and isinstance(n.operand, ast.Constant):
+                return ast.copy_location(ast.Constant(not n.operand.value), n)
+            return n
+
+        def visit_BoolOp(self, n):
+            self.generic_visit(n)
+            is_and = isinstance(n.op, ast.And)
+            vals = []
+            for v in n.values:
+                if isinstance(v, ast.Constant):
+                    if bool(v.value) == is_and:
+                        continue                      # neutral element: `x and True`, `x or False`
+                    vals.append(v)                    # deciding element: nothing after it is evaluated
+                    break
+                vals.append(v)
+            if not vals:
+                return ast.copy_location(ast.Constant(is_and), n)
+            if len(vals) == 1:
+                return vals[0]
+            if isinstance(vals[-1], ast.Constant) and all(not any(isinstance(x, ast.Call) for x in ast.walk(v)) for v in vals[:-1]):
+                return vals[-1] if False else ast.copy_location(ast.BoolOp(op=n.op, values=vals), n)
+            n.values = vals
+            return n
+
+        def visit_IfExp(self, n):
+            self.generic_visit(n)
+            if isinstance(n.test, ast.Constant):
+                return n.body if n.test.value else n.orelse
+            return n
+
+        def _block(self, body):
+            out = []
+            for st in body:
+                r = self.visit(st)
+                if r is None:
+                    continue
+                if isinstance(r, list):
+                    out.extend(r)
+                else:
+                    out.append(r)
+            return out
+
+        def visit_If(self, n):
+            n.test = self.visit(n.test)
+            n.body = self._block(n.body)
+            n.orelse = self._block(n.orelse)
+            if isinstance(n.test, ast.Constant):
+                chosen = n.body if n.test.value else n.orelse
+                return chosen if chosen else None
+            if not n.body:
+                n.body = [ast.copy_location(ast.Pass(), n)]
+            return n
+
+        def generic_visit(self, n):
+            for f in ('body', 'orelse', 'finalbody'):
+                b = getattr(n, f, None)
+                if isinstance(b, list) and b and isinstance(b[0], ast.stmt) and not isinstance(n, ast.If):
+                    nb = self._block(b)
+                    setattr(n, f, nb if nb or f != 'body' else [ast.copy_location(ast.Pass(), n)])
+            for fld, val in ast.iter_fields(n):
+                if fld in ('body', 'orelse', 'finalbody') and isinstance(val, list) and val and isinstance(val[0], ast.stmt):
+                    continue
+                if isinstance(val, list):
+                    new = []
+                    for x in val:
+                        if isinstance(x, ast.AST):
+                            r = self.visit(x)
+                            if r is None:
+                                continue
+                            if isinstance(r, list):
+                                new.extend(r)
+                            else:
+                                new.append(r)
+                        else:
+                            new.append(x)
+                    val[:] = new
+                elif isinstance(val, ast.AST):
+                    r = self.visit(val)
+                    if r is not None and not isinstance(r, list):
+                        setattr(n, fld, r)
+            return n
+    return F().visit(node)
+
+
+def _specialise_new_optional_parameters(trees):
+    """A parameter that the pinned tree does not have (sa/signatures.json), that has a constant default and that no call in the package passes,
+    is read as that default inside its function, and the function is partially evaluated: existing callers -- the ones the properties speak
+    about -- get exactly this code.  (`cancel_matching_events(asset_id=None, include_paused=True, on_cancelled=None)` is analysed as the
+    two-list cancel without a callback it is for every existing caller; what a caller of the new feature gets is not claimed.)"""
+    import copy
+    import json as _json
+    import pathlib as _pl
+    try:
+        known = _json.load(open(_pl.Path(__file__).with_name('signatures.json')))
+    except Exception:      # noqa: BLE001
+        return
+    passed_kw = set()
+    pos_counts = {}
+    for t in trees:
+        for x in ast.walk(t):
+            if isinstance(x, ast.Call):
+                for k in x.keywords:
+                    if k.arg:
+                        passed_kw.add(k.arg)
+                    else:
+                        passed_kw.add('**')
+                nm = x.func.attr if isinstance(x.func, ast.Attribute) else x.func.id if isinstance(x.func, ast.Name) else None
+                if nm:
+                    npos = len(x.args) + (100 if any(isinstance(a, ast.Starred) for a in x.args) else 0)
+                    pos_counts[nm] = max(pos_counts.get(nm, 0), npos)
+    if '**' in passed_kw:
+        pass        # a **kwargs call somewhere: keyword names are unknown there; such calls forward to the same-named parameter and stay neutral
+
+    def handle(fn, qual, ctor_name=None):
+        if qual not in known:
+            return
+        args = fn.args.args + fn.args.kwonlyargs
+        defaults = dict(zip([a.arg for a in fn.args.args][len(fn.args.args) - len(fn.args.defaults):], fn.args.defaults))
+        defaults.update({a.arg: d for a, d in zip(fn.args.kwonlyargs, fn.args.kw_defaults) if d is not None})
+        is_method = bool(fn.args.args) and fn.args.args[0].arg in ('self', 'cls')
+        bind = {}
+        for idx, a in enumerate(fn.args.args + fn.args.kwonlyargs):
+            d_ = defaults.get(a.arg)
+            literal = isinstance(d_, ast.Constant) or (isinstance(d_, ast.UnaryOp) and isinstance(d_.operand, ast.Constant)) or \
+                (isinstance(d_, ast.Attribute) and isinstance(d_.value, ast.Name) and d_.value.id[:1].isupper() and d_.attr.isupper())     # EventType.FAIL
+            if a.arg in known[qual] or a.arg not in defaults or not literal:
+                continue
+            if a.arg in passed_kw:
+                continue
+            if a in fn.args.args:
+                pos = idx - (1 if is_method else 0)
+                callee_names = [fn.name] + ([ctor_name] if ctor_name else [])
+                if any(pos_counts.get(nm, 0) > pos for nm in callee_names):
+                    continue
+            if any(isinstance(x, ast.Name) and x.id == a.arg and isinstance(x.ctx, (ast.Store, ast.Del)) for x in ast.walk(fn)):
+                continue
+            bind[a.arg] = defaults[a.arg]
+        if not bind:
+            return
+
+        class Put(ast.NodeTransformer):
+            def visit_Name(self_, x):
+                if x.id in bind and isinstance(x.ctx, ast.Load):
+                    return ast.copy_location(copy.deepcopy(bind[x.id]), x)
+                return x
+
+            def visit_FunctionDef(self_, x):
+                return x if x is not fn else self_.generic_visit(x)
+
+            def visit_Lambda(self_, x):
+                return x
+        Put().generic_visit(fn)
+        _fold_constants(fn)
+        if not fn.body:
+            fn.body = [ast.copy_location(ast.Pass(), fn)]
+        # ... and is no longer a parameter of the analysed copy (rules that read a signature see the one existing callers use)
+        nd = len(fn.args.defaults)
+        pos = fn.args.args
+        dflt = [None] * (len(pos) - nd) + list(fn.args.defaults)
+        keep = [(a_, d_) for a_, d_ in zip(pos, dflt) if a_.arg not in bind]
+        fn.args.args = [a_ for a_, _ in keep]
+        fn.args.defaults = [d_ for _, d_ in keep if d_ is not None]
+        kw_keep = [(a_, d_) for a_, d_ in zip(fn.args.kwonlyargs, fn.args.kw_defaults) if a_.arg not in bind]
+        fn.args.kwonlyargs = [a_ for a_, _ in kw_keep]
+        fn.args.kw_defaults = [d_ for _, d_ in kw_keep]
+    for t in trees:
+        for c in t.body:
+            if isinstance(c, ast.ClassDef):
+                for b in c.body:
+                    if isinstance(b, ast.FunctionDef):
+                        handle(b, f'{c.name}.{b.name}', c.name if b.name == '__init__' else None)
+            elif isinstance(c, ast.FunctionDef):
+                handle(c, c.name)
+        ast.fix_missing_locations(t)
+    # a helper that the pinned tree does not have, whose whole body is `return <expression>`, called with a constant among its arguments
+    # (typically the default just substituted: `Environment._event_type_matches(x, None)`): the expression, partially evaluated
+    helpers = {}
+    names_count = {}
+    for t in trees:
+        for c in t.body:
+            fns = [(c.name, b) for b in c.body if isinstance(b, ast.FunctionDef)] if isinstance(c, ast.ClassDef) else ([(None, c)] if isinstance(c, ast.FunctionDef) else [])
+            for cn, b in fns:
+                names_count[b.name] = names_count.get(b.name, 0) + 1
+                qual = f'{cn}.{b.name}' if cn else b.name
+                if qual in known:
+                    continue
+                body = [x for x in b.body if not (isinstance(x, ast.Expr) and isinstance(x.value, ast.Constant))]
+                deco = [ast.unparse(d) for d in b.decorator_list]
+                # `try: return E / except X as e: raise Y(...) from e`: the value is E, the handler only re-words the error
+                if len(body) == 1 and isinstance(body[0], ast.Try) and len(body[0].body) == 1 and isinstance(body[0].body[0], ast.Return) and not body[0].orelse \
+                        and not body[0].finalbody and body[0].handlers and all(len(h.body) == 1 and isinstance(h.body[0], ast.Raise) for h in body[0].handlers):
+                    body = [body[0].body[0]]
+                if len(body) == 1 and isinstance(body[0], ast.Return) and body[0].value is not None and deco in ([], ['staticmethod']) \
+                        and not (b.args.vararg or b.args.kwarg or b.args.kwonlyargs or b.args.defaults) \
+                        and not any(isinstance(x, (ast.Lambda, ast.Yield, ast.Await, ast.NamedExpr)) for x in ast.walk(body[0].value)):
+                    ps = [a.arg for a in b.args.args]
+                    if cn and deco == []:
+                        if not ps or ps[0] != 'self':
+                            continue
+                    helpers[b.name] = (cn, deco == ['staticmethod'] or cn is None, ps, body[0].value)
+    helpers = {k: v for k, v in helpers.items() if names_count.get(k) == 1}
+    if helpers:
+        def simple(e):
+            return isinstance(e, (ast.Name, ast.Constant)) or (isinstance(e, ast.Attribute) and simple(e.value))
+
+        class Inl(ast.NodeTransformer):
+            def visit_Call(self_, n):
+                self_.generic_visit(n)
+                nm = n.func.attr if isinstance(n.func, ast.Attribute) else n.func.id if isinstance(n.func, ast.Name) else None
+                if nm not in helpers or n.keywords or not any(isinstance(a, ast.Constant) for a in n.args) or not all(simple(a) for a in n.args):
+                    return n
+                cn, static, ps, expr = helpers[nm]
+                if static:
+                    if len(ps) != len(n.args):
+                        return n
+                    bind = dict(zip(ps, n.args))
+                else:
+                    if not isinstance(n.func, ast.Attribute) or len(ps) - 1 != len(n.args) or not simple(n.func.value):
+                        return n
+                    bind = dict(zip(ps[1:], n.args))
+                    bind[ps[0]] = n.func.value
+
+                class Put(ast.NodeTransformer):
+                    def visit_Name(s_, x):
+                        if x.id in bind and isinstance(x.ctx, ast.Load):
+                            return copy.deepcopy(bind[x.id])
+                        return x
+                e = Put().visit(copy.deepcopy(expr))
+                for x in ast.walk(e):
+                    ast.copy_location(x, n)
+                holder = ast.Expr(value=e)
+                _fold_constants(holder)
+                return holder.value
+        for t in trees:
+            Inl().visit(t)
+            _fold_constants(t)
+            ast.fix_missing_locations(t)
+
+
+def _strip_diagnostics(trees):
+    """`logger.debug(...)` and `if logger.isEnabledFor(...): logger.debug(...)` -- calls on a module-level `logging.getLogger(...)` object or on the
+    `logging` module -- are removed from the analysed copy when their arguments call nothing but pure builtins and private one-line label
+    helpers: diagnostics neither read nor write anything the properties speak about."""
+    LOG_METHODS = {'debug', 'info', 'warning', 'warn', 'error', 'exception', 'critical', 'log'}
+    PURE = {'len', 'str', 'repr', 'type', 'int', 'float', 'round', 'sorted', 'list', 'tuple', 'id', 'getattr', 'isinstance', 'format', 'sum', 'min', 'max', 'bool', 'dict', 'set'}
+    for t in trees:
+        loggers = set()
+        for st in t.body:
+            if isinstance(st, ast.Assign) and len(st.targets) == 1 and isinstance(st.targets[0], ast.Name) and isinstance(st.value, ast.Call) \
+                    and ast.unparse(st.value.func) in ('logging.getLogger', 'getLogger'):
+                loggers.add(st.targets[0].id)
+        has_logging = any(isinstance(x, ast.Import) and any(a.name == 'logging' for a in x.names) for x in ast.walk(t))
+        if not loggers and not has_logging:
+            continue
+        one_liners = {b.name for b in ast.walk(t) if isinstance(b, ast.FunctionDef) and b.name.startswith('_') and
+                      len([x for x in b.body if not (isinstance(x, ast.Expr) and isinstance(x.value, ast.Constant))]) == 1}
+
+        def is_log_recv(e):
+            return isinstance(e, ast.Name) and (e.id in loggers or (has_logging and e.id == 'logging'))
+
+        def harmless(e):
+            for x in ast.walk(e):
+                if isinstance(x, ast.Call):
+                    f = x.func
+                    ok = (isinstance(f, ast.Name) and (f.id in PURE or f.id in one_liners)) or \
+                         (isinstance(f, ast.Attribute) and (f.attr in ('format', 'join', 'get', 'keys', 'values', 'items', 'copy') or is_log_recv(f.value)))
+                    if not ok:
+                        return False
+                if isinstance(x, (ast.NamedExpr, ast.Await, ast.Yield, ast.Lambda)):
+                    return False
+            return True
+
+        def is_log_stmt(st):
+            return isinstance(st, ast.Expr) and isinstance(st.value, ast.Call) and isinstance(st.value.func, ast.Attribute) and st.value.func.attr in LOG_METHODS \
+                and is_log_recv(st.value.func.value) and all(harmless(a) for a in st.value.args) and all(harmless(k.value) for k in st.value.keywords)
+
+        def is_log_guard(test):
+            for x in ast.walk(test):
+                if isinstance(x, ast.Call) and isinstance(x.func, ast.Attribute) and x.func.attr in ('isEnabledFor', 'getEffectiveLevel') and is_log_recv(x.func.value):
+                    return harmless(test)
+            return False
+
+        def clean(block):
+            out = []
+            for st in block:
+                if is_log_stmt(st):
+                    continue
+                if isinstance(st, ast.If) and not st.orelse and is_log_guard(st.test) and all(is_log_stmt(b) or (isinstance(b, ast.Assign) and harmless(b.value) and
+                                                                                                              all(isinstance(tg, ast.Name) for tg in b.targets)) for b in st.body):
+                    continue
+                for f in ('body', 'orelse', 'finalbody'):
+                    b = getattr(st, f, None)
+                    if isinstance(b, list) and b and isinstance(b[0], ast.stmt) and not isinstance(st, ast.ClassDef):
+                        nb = clean(b)
+                        if not nb and f == 'body':
+                            nb = [ast.copy_location(ast.Pass(), st)]
+                        setattr(st, f, nb)
+                if isinstance(st, ast.Try):
+                    for h in st.handlers:
+                        h.body = clean(h.body) or [ast.copy_location(ast.Pass(), h)]
+                if isinstance(st, ast.ClassDef):
+                    for b in st.body:
+                        if isinstance(b, ast.FunctionDef):
+                            b.body = clean(b.body) or [ast.copy_location(ast.Pass(), b)]
+                out.append(st)
+            return out
+        t.body = clean(t.body)
+        for fn in [x for x in t.body if isinstance(x, ast.FunctionDef)]:
+            pass
+        # an `else:` branch that only logged is now `else: pass`; `if c: pass` with nothing else is left as it is (the test may matter to a rule)
+        ast.fix_missing_locations(t)
+
+
 def _plain_assignments(trees):
     """`self.x: int = 0` / `total: float = a + b` (an annotated assignment with a value, outside class bodies) is the assignment `self.x = 0`;
     a bare annotation `x: int` inside a function declares nothing at run time and is dropped.  Class-level annotated fields are left alone
@@ -831,11 +1171,16 @@ def _plain_assignments(trees):
 
         def visit_ClassDef(self, n):
             saved, self.depth_fn = self.depth_fn, 0
+            record = any('dataclass' in ast.unparse(d) for d in n.decorator_list) or any(ast.unparse(b_).split('.')[-1] in ('NamedTuple', 'TypedDict', 'Protocol') for b_ in n.bases)
+            saved_rec, self.in_plain_class = getattr(self, 'in_plain_class', False), not record
             self.generic_visit(n)
             self.depth_fn = saved
+            self.in_plain_class = saved_rec
             return n
 
         def visit_AnnAssign(self, n):
+            if self.depth_fn == 0 and getattr(self, 'in_plain_class', False) and n.value is not None and isinstance(n.target, ast.Name):
+                return ast.copy_location(ast.Assign(targets=[n.target], value=n.value, type_comment=None), n)     # `_instance: Optional[System] = None` in a class body
             if self.depth_fn == 0:
                 return n
             if n.value is None:
@@ -1108,6 +1453,8 @@ class Program:
             except SyntaxError as e:
                 raise AnalysisError(f'{rel}: does not parse: {e}')
             self.mods[name] = (name, p, tree, is_pkg, src)
+        _strip_diagnostics([t[2] for t in self.mods.values()])
+        _specialise_new_optional_parameters([t[2] for t in self.mods.values()])
         _plain_assignments([t[2] for t in self.mods.values()])
         _positional_arguments([t[2] for t in self.mods.values()])
         _explicit_dataclass_init([t[2] for t in self.mods.values()])
